@@ -558,9 +558,10 @@ def judge_program(ctx, prog, obs, exact):
             gsum = sum(sum(per.get(x, [])) for x in grp)
             if okv and len(grp) > 1 and abs(gsum - len(grp) * target) <= slack * len(grp) \
                     and all(abs(sum(per.get(x, []))) <= slack for x in grp[1:]):
-                bad.append(("%s: queries %s are the same ground node; all %d copies of the proofs are listed under %s "
-                            "(sums to %r, exact %r) and none under the others" % (src_name, grp, len(grp), grp[0], gsum, e),
-                            "explain-proofs-mislabelled-when-queries-share-a-node"))
+                if q == grp[0]:
+                    bad.append(("%s: queries %s are the same ground node; all %d copies of the proofs are listed under %s "
+                                "(sums to %r, exact %r) and none under the others" % (src_name, grp, len(grp), grp[0], gsum, e),
+                                "explain-proofs-mislabelled-when-queries-share-a-node"))
             else:
                 bad.append(("%s: proofs of %s sum to %r, result %r, exact %r" % (src_name, q, s, v, e), "explain-sum-wrong"))
     return bad
@@ -834,24 +835,31 @@ def run(ctx):
     ALL_MODES = ("default", "conv0", "wide", "lower", "explain")
     REAL_MODES = ("default", "wide", "explain") if ctx.tier == "quick" else ALL_MODES
     plan = []   # (prog, solver_kind, modes, do_task)
+    ncorpus = 0
     if getattr(ctx, "replay", None):
-        p = ctx.replay["replay"]["program"]
-        p = {"facts": [(a_, Fraction(b_)) for a_, b_ in p["facts"]],
-             "ads": [[(a_, Fraction(b_)) for a_, b_ in ad] for ad in p["ads"]],
-             "rules": [(h, [(a_, bool(ng)) for a_, ng in body]) for h, body in p["rules"]],
-             "queries": list(p["queries"])}
-        plan.append((p, ctx.replay["replay"].get("solver", "maxsatz"), ALL_MODES, True))
+        plan.append((decode_prog(ctx.replay["replay"]["program"]), ctx.replay["replay"].get("solver", "maxsatz"), ALL_MODES, True))
     else:
-        nreal = ctx.n(8, 220)
-        ndpll = ctx.n(40, 1500)
+        # minimised past disagreements first
+        cdir = os.path.join(vf.CORPUS, "C23")
+        if os.path.isdir(cdir):
+            import json
+            for fn in sorted(os.listdir(cdir)):
+                if fn.endswith(".json"):
+                    with open(os.path.join(cdir, fn)) as fh:
+                        d = json.load(fh)
+                    plan.append((decode_prog(d["program"]), d.get("solver", "dpll"), ALL_MODES, True))
+                    ctx.count("corpus_cases")
+        ncorpus = len(plan)
+        nreal = ctx.n(8, 90)
+        ndpll = ctx.n(40, 1200)
         seen = set()
-        while len(plan) < nreal + ndpll:
+        while len(plan) - ncorpus < nreal + ndpll:
             p = gen_program(ctx.rng)
             t = program_text(p)
             if t in seen:
                 continue
             seen.add(t)
-            k = len(plan)
+            k = len(plan) - ncorpus
             if k < nreal:
                 # maxsatz start-up dominates (1-3 s per call): keep the real-solver programs smaller in quick
                 if ctx.tier == "quick" and len(p["facts"]) + len(p["ads"]) > 5:
@@ -866,7 +874,7 @@ def run(ctx):
     ctx.log("implementation runs done")
 
     cases, metas = [], []
-    ncoq_real, ncoq_dpll = ctx.n(8, 120), ctx.n(10, 200)
+    ncoq_real, ncoq_dpll = ctx.n(8, 60), ctx.n(10, 150)
     nreal_seen = ndpll_seen = 0
     for k, ((prog, sk, md, dt), obs) in enumerate(zip(plan, obs_all)):
         if "ground_error" in obs:
@@ -890,7 +898,8 @@ def run(ctx):
         if bad:
             klasses = sorted(set(kk for _, kk in bad))
             small = prog
-            if sk == "dpll":   # shrinking with maxsatz costs minutes; only shrink the fast runs
+            # shrinking with maxsatz costs minutes: only the fast runs are shrunk; corpus cases are minimal already
+            if sk == "dpll" and k >= ncorpus:
                 try:
                     small = shrink_program(prog, lambda c: bool(classes_of(c, ctx.scratch, sk, md) & set(klasses)))
                 except Exception:
@@ -921,6 +930,13 @@ def run(ctx):
     ctx.cov["model_vs_impl_cases"] = len(cases)
     for i in failing[:5]:
         ctx.broken.append("correspondence:%s (model vs implementation, solver %s) on program %r" % metas[i])
+
+
+def decode_prog(p):
+    return {"facts": [(a_, Fraction(b_)) for a_, b_ in p["facts"]],
+            "ads": [[(a_, Fraction(b_)) for a_, b_ in ad] for ad in p["ads"]],
+            "rules": [(h, [(a_, bool(ng)) for a_, ng in body]) for h, body in p["rules"]],
+            "queries": list(p["queries"])}
 
 
 def jsonable(prog):
